@@ -129,6 +129,13 @@ func c16Cases(tier string, seed uint64, flavor string) []lib.Case {
 			}
 		}
 	}
+	// a verdict must never depend on which ready branch a select happens to take: repeat the earliest instants
+	for rep := 0; rep < 20; rep++ {
+		for _, pt := range []string{"before", "point:val-dir:1", "point:val-main-select:1"} {
+			add(c16Spec{Build: "files3", Damage: []string{"first", "last", "all"}[rep%3], Consumer: "failfast", Cancel: pt, Sched: []string{"none", "perturb"}[rep%2], SchedSeed: lib.Mix(seed, uint64(i)), Procs: []int{1, 2, 16}[rep%3]})
+			i++
+		}
+	}
 	cancelCases("files3", []string{"none", "first", "last", "all"}, 3, 1)
 	ev := 15
 	if tier == "thorough" {
